@@ -37,7 +37,7 @@ def main():
     meta = {}
     if os.path.exists(meta_path):
         meta = json.load(open(meta_path))
-    subprocess.check_call(["git", "-C", "/repo", "worktree", "add", "-q", wt, "HEAD"])
+    subprocess.check_call(["git", "-C", "/repo", "worktree", "add", "-q", wt, os.environ.get("SEEDED_BASE", "HEAD")])
     try:
         env = {**os.environ, "PYTHONPATH": f"{wt}/src"}
         rc0, out0 = sh(f"timeout 300 /venv/bin/python {d}/demo.py", cwd=wt, env=env)
@@ -76,7 +76,7 @@ def main():
                           "PYTHONPATH=<wt>/src /venv/bin/python demo.py",
                           "PYTHONPATH=<wt>/src /venv/bin/python -m pytest -q -p no:cacheprovider --timeout=900",
                           "VERIF_REPO=<wt> ./check <id> --tier quick"],
-                repo_head=subprocess.check_output(["git", "-C", "/repo", "rev-parse", "--short", "HEAD"], text=True).strip(),
+                repo_head=subprocess.check_output(["git", "-C", "/repo", "rev-parse", "--short", os.environ.get("SEEDED_BASE", "HEAD")], text=True).strip(),
             ),
             checks={**meta.get("checks", {}), **results},
         ))
